@@ -4,10 +4,11 @@ import Drivers.Common
 /-
 Line protocol (same lines as harness/cc/c51_plugins.cc; doubles are 16 hex digits):
   pid kp=<h> ki=<h> kd=<h> imax=<h|-> slew=<h|-> dt=<h> dyn=<0..3> tau=<h> early=<0|1> clim=<h,h|-> integ=<0|2|3>
-      u=<h,...> | { time ctrl len vel nact nactdot }          (one group per step; "-" for absent values)
+      ownexact=<0|1> u=<h,...> | { time ctrl len vel nact nactdot }          (one group per step; "-" for absent values)
     -> per step "force actdotI actdotP actI' actP' ;"  ("-" for a slot the configuration does not have)
   cable n=<N> first=… flat=<0|1> … | { bq×4 q0×4 q×4 stiff×4 ; }          (one group per body)
     -> "omega0 <3N h> stress <3N h>"
+  genid <expected>      -> genid <fingerprint of the sources Gen/CablePlugin.lean was generated from>
   kern QuatDiff <8 h> | LocalStress_pull <11 h> | LocalStress_nopull <11 h>     -> the outputs of the generated kernels
 -/
 open MjProof MjProof.Driver
@@ -41,7 +42,7 @@ def ins? : List String → Option (List (Pid.In Float))
 
 def pidLine (keys inp : List String) : Option String := do
   match keys with
-  | [kp, ki, kd, im, sl, dt, dy, ta, ea, cl, ig, u] =>
+  | [kp, ki, kd, im, sl, dt, dy, ta, ea, cl, ig, ow, u] =>
     let kp ← floatOfBits? (← kvv? "kp" kp)
     let ki ← floatOfBits? (← kvv? "ki" ki)
     let kd ← floatOfBits? (← kvv? "kd" kd)
@@ -53,12 +54,13 @@ def pidLine (keys inp : List String) : Option String := do
     let ea ← (← kvv? "early" ea).toNat?
     let cl ← pair? (← kvv? "clim" cl)
     let ig ← (← kvv? "integ" ig).toNat?
+    let ow ← (← kvv? "ownexact" ow).toNat?
     let us := (← kvv? "u" u).splitOn ","
     let dyn ← match dy with | 0 => some Pid.Dyn.none | 1 => some .integrator | 2 => some .filter | 3 => some .filterexact | _ => none
-    if ea > 1 ∨ ¬ (ig = 0 ∨ ig = 2 ∨ ig = 3) then none
+    if ea > 1 ∨ ow > 1 ∨ ¬ (ig = 0 ∨ ig = 2 ∨ ig = 3) then none
     let ins ← ins? inp
     if ins.length ≠ us.length then none
-    match Pid.create? kp ki kd im sl dt dyn ta (ea = 1) cl with
+    match Pid.create? kp ki kd im sl dt dyn ta (ea = 1) cl (ow = 1) with
     | none => pure "create-failed"
     | some c =>
       let outs := Pid.runSeq c { actI := 0.0, actP := 0.0 } ins
@@ -126,6 +128,7 @@ def step (line : String) : String :=
     | (keys, some inp) => (cableLine keys inp).getD "bad-op"
     | _ => "bad-op"
   | "kern" :: r => (kernLine r).getD "bad-op"
+  | ["genid", _] => "genid " ++ Gen.cableGenId
   | _ => "bad-op"
 
 def main : IO Unit := runStateless step
